@@ -44,11 +44,19 @@ def check(sc, obs):
         if want_a and seen[0].v == 1:
             return "state yielded by a disposable is not visible inside the scope"
         failing = [i for i, (_, x) in enumerate(sc["disps"]) if x.endswith("fail")]
+        if not obs.get("cancel_delivered"):
+            cut = [e[1] for e in log if e[0] == "exit-interrupted"]
+            if cut:
+                return f"cleanup of disposable(s) {cut} was interrupted by a cancellation nobody requested (it never completed)"
         if failing:
             ok = kind == "raise" and (isinstance(exc, DispError) or (isinstance(exc, BaseExceptionGroup)
                                                                     and all(isinstance(x, DispError) for x in exc.exceptions)))
             if not ok:
                 return f"cleanup of disposable(s) {failing} raised but the caller got {(kind, exc)!r}"
+            if not obs.get("cancel_delivered"):
+                got = sorted(x.args[0][1] for x in (exc.exceptions if isinstance(exc, BaseExceptionGroup) else [exc]))
+                if got != failing:
+                    return f"cleanup of disposables {failing} raised but only the error(s) of {got} reached the caller"
     return None
 
 
